@@ -45,6 +45,25 @@ func (s segVal) build() *pdu.DeliverSM {
 }
 
 func coqSeg(s segVal) string {
+	// compact form (Model/CombinerRun.v: sg): the UDH as one string "<key hex><data hex>/<key hex><data hex>…"
+	keys := make([]int, 0, len(s.UDH))
+	n := 0
+	for k, v := range s.UDH {
+		keys = append(keys, int(k))
+		n += 3 + 2*len(v)
+	}
+	if n <= 900 && len(s.Src.No) <= 400 && len(s.Dst.No) <= 400 {
+		sort.Ints(keys)
+		var sb strings.Builder
+		for i, k := range keys {
+			if i > 0 {
+				sb.WriteByte('/')
+			}
+			fmt.Fprintf(&sb, "%02x%s", k, hex.EncodeToString(s.UDH[byte(k)]))
+		}
+		return fmt.Sprintf(`(sg %d %d "%s" %d %d "%s" %v "%s")`, s.Src.TON, s.Src.NPI, hex.EncodeToString([]byte(s.Src.No)),
+			s.Dst.TON, s.Dst.NPI, hex.EncodeToString([]byte(s.Dst.No)), s.UDH != nil, sb.String())
+	}
 	udh := "None"
 	if s.UDH != nil {
 		udh = "(Some " + coqKVs8(s.UDH) + ")"
@@ -773,12 +792,31 @@ func corrC10(r *Run) {
 	// duplicate starts a fresh, incomplete entry and must not fire (C10_at_most_once, C10_duplicate_after_delivery)
 	shapes := []shape{{1, 1, 1, 1, 0}, {1, 2, 1, 1, 0}, {1, 3, 1, 1, 0}, {1, 2, 2, 1, 0}, {1, 3, 2, 1, 0}, {1, 4, 0, 1, 0}, {2, 2, 0, 1, 0}, {2, 2, 1, 1, 0}, {3, 2, 0, 1, 0}, {2, 3, 0, 1, 0}}
 	if r.Quick {
-		shapes = append(shapes, shape{2, 2, 2, 3, 0}, shape{2, 3, 1, 9, 0}, shape{3, 2, 1, 9, 0})
+		shapes = append(shapes, shape{2, 2, 2, 6, 0}, shape{2, 3, 1, 18, 0}, shape{3, 2, 1, 18, 0})
 	} else {
 		shapes = append(shapes, shape{2, 2, 2, 1, 0}, shape{2, 3, 1, 2, 0}, shape{3, 2, 1, 2, 0}, shape{4, 2, 0, 8, 0}, shape{3, 3, 0, 60, 0})
 	}
+	// the quick tier takes, per shape, the eight original key sets and two of the four round-5 ones (rotating with shape and seed);
+	// single-message shapes do not depend on what separates messages: two key sets (one per reference form)
+	round5 := []string{"letters-and-case", "nul-and-high-octets", "plus-and-leading-zero", "reference-classes"}
+	isRound5 := map[string]bool{}
+	for _, n := range round5 {
+		isRound5[n] = true
+	}
 	for si, sh := range shapes {
 		names := setNames
+		if r.Quick {
+			names = nil
+			for _, n := range setNames {
+				if !isRound5[n] {
+					names = append(names, n)
+				}
+			}
+			names = append(names, round5[(si+int(r.Seed))%4], round5[(si+int(r.Seed)+2)%4])
+			if sh.m == 1 {
+				names = []string{"digit-prefix-dst-vs-ref", "equal-ref-different-src"}
+			}
+		}
 		if sh.m*sh.n+sh.dups >= 7 {
 			// large shapes: rotate through the key sets instead of the full product
 			names = []string{setNames[(si+int(r.Seed))%len(setNames)], "digit-prefix-dst-vs-ref"}
@@ -857,7 +895,7 @@ func corrC10(r *Run) {
 	}
 
 	// ---- random histories beyond
-	n := r.N(1500, 8000)
+	n := r.N(550, 8000)
 	for i := 0; i < n; i++ {
 		name := setNames[r.Rng.Intn(len(setNames))]
 		ks := sets[name]
@@ -986,6 +1024,9 @@ func corrC10(r *Run) {
 			r.Case(fmt.Sprintf("beq_key %+v %+v", a, b), fmt.Sprintf("Bool.eqb (beq_key %s %s) %s", coqKey(a), coqKey(b), coqBool(eq)))
 		}
 	}
+	spreadHeavy(r, func(e string) bool {
+		return strings.HasPrefix(e, "chk_long ") || (strings.HasPrefix(e, "chk_open ") && (strings.Contains(e, " 1000%nat") || strings.Contains(e, " 1025%nat") || strings.Contains(e, "00%nat")))
+	})
 }
 
 func (r *Rng) perm(n int) []int {
